@@ -252,12 +252,32 @@ class NBuilder(object):
         builder = self
         matches = [v for k, v in sorted(self.model.items()) if k.startswith("re.match")]
 
+        others = dict((kind, [v for k, v in sorted(self.model.items()) if k.startswith("re." + kind)])
+                      for kind in ("search", "fullmatch"))
+        rnd = self.rnd
+
         class _Rx(object):
             pattern = "<configured pattern %s>" % name
 
+            def __init__(self_inner):
+                self_inner.log = []          # (method, text, outcome) of every call, for the contract clauses
+
             def match(self_inner, s):
                 v = matches.pop(0) if matches else False
+                self_inner.log.append(("match", s, bool(v)))
                 return object() if v else None
+
+            def _other(self_inner, kind, s):
+                vals = others[kind]
+                v = vals.pop(0) if vals else (rnd.random() < 0.5 if rnd is not None else True)
+                self_inner.log.append((kind, s, bool(v)))
+                return object() if v else None
+
+            def search(self_inner, s):
+                return self_inner._other("search", s)
+
+            def fullmatch(self_inner, s):
+                return self_inner._other("fullmatch", s)
         return _Rx()
 
     def spy(self, ghost, obj, method):
